@@ -798,6 +798,25 @@ example :
     runY facts depsBefore pkgLate = ⟨[], true⟩ := by
   decide
 
+/-- a variable of function type initialised by a function literal (seeded change C15-3):
+    `var y = lg("y", get()); var get = func() int { return x }; var x = lg("x")` — `y` waits for `get`,
+    `get` (whose initialiser logs nothing) for what the literal's body refers to: `x y`, as the
+    specification says. Were `genGlobalVarDecl` to skip the specifications whose value is a function
+    literal (`collectSkip := .funcLit`), `y` would run before `x`, and `var f = func() int { return g(f) }`
+    would no longer be an initialization cycle. -/
+def pkgFuncValue : Pkg :=
+  ⟨[v1 "y" ["get"], ⟨["get"], [⟨"", [⟨"x", true⟩]⟩], false, false⟩, v1 "x" []], helpers, [], some "main"⟩
+example :
+    classify pkgFuncValue = "in-domain" ∧ collectDepsY deps pkgFuncValue = [[1], [2], []] ∧
+    runY facts deps pkgFuncValue = ⟨["x", "y", "main"], false⟩ ∧ runGo pkgFuncValue = ⟨["x", "y", "main"], false⟩ ∧
+    runY facts { deps with collectSkip := .funcLit } pkgFuncValue = ⟨["y", "x", "main"], false⟩ ∧
+    runY facts deps ⟨[⟨["f"], [⟨"", [⟨"g", true⟩, ⟨"f", true⟩]⟩], false, false⟩], helpers ++ [⟨"g", [], false⟩], [], some "main"⟩
+      = ⟨[], true⟩ ∧
+    runY facts { deps with collectSkip := .funcLit }
+        ⟨[⟨["f"], [⟨"", [⟨"g", true⟩, ⟨"f", true⟩]⟩], false, false⟩], helpers ++ [⟨"g", [], false⟩], [], some "main"⟩
+      = ⟨["main"], false⟩ := by
+  decide
+
 /-! ### the statements are not vacuous -/
 
 /-- a diamond with forward references, a function that reaches a variable and one that does not:
